@@ -94,6 +94,34 @@ def main(path):
                 want = [name_of(x) for x in r["names"]]
                 if list(got) != want:
                     err = f"{list(got)} instead of {want}"
+            elif c["f"] == "mti":
+                from adcgen.indices import (minimize_tensor_indices,
+                                            get_symbols)
+                lets = {1: "ijklmno", 2: "abcdefgh"}
+                spc = {1: "occ", 2: "virt"}
+
+                def nm(x):
+                    return lets[x[0]][x[1] - 1] + (str(x[2]) if x[2] else "")
+                syms = [get_symbols(nm(x))[0] for x in c["t"]]
+                tgt = {}
+                for x in c["tgt"]:
+                    tgt.setdefault((spc[x[0]], ""), []).append(nm(x))
+                got, perms = minimize_tensor_indices(tuple(syms), tgt)
+                want = [nm(x) for x in r["names"]]
+                if [s_.name for s_ in got] != want:
+                    err = (f"{[s_.name for s_ in syms]} targets {tgt}: "
+                           f"{[s_.name for s_ in got]} instead of {want}")
+                else:
+                    # the returned transpositions map the input onto the result
+                    cur = list(syms)
+                    for p_ in perms:
+                        a_, b_ = tuple(p_)
+                        cur = [b_ if s_ is a_ else a_ if s_ is b_ else s_
+                               for s_ in cur]
+                    if [s_.name for s_ in cur] != want:
+                        err = (f"{[s_.name for s_ in syms]}: the returned "
+                               f"permutations {perms} give "
+                               f"{[s_.name for s_ in cur]} instead of {want}")
             elif c["f"] == "split":
                 s = "".join(CHARS[x] for x in c["s"])
                 got = split_idx_string(s)
